@@ -3,7 +3,7 @@
 Run-time contract on the real expand_run_space: for every enumerated specification the result equals the documented
 Expand function (written from docs/source/run_space.rst and the module docstring), or the documented error is raised.
 Bound: <= 3 blocks, <= 2 keys per block over a 4-letter key alphabet, value lists of length 0..3, both block modes,
-both combine modes, max_runs in {0, 1, 4, 1000}; no external sources (select/rename are proved deductively).
+both combine modes, max_runs in {0, 1, 4, 1000}; single-block context+source combinations over real CSV files with 0..2 rows on either side (select/rename are proved deductively).
 Also measures materialisation when the cap is exceeded (sys.settrace on the comprehension frames of _expand_entries).
 """
 import itertools, json, sys, logging, random
@@ -138,6 +138,54 @@ for combine in ("combinatorial", "by_position"):
     triples = [tuple(rng.choice(blocks_pool) for _ in range(3)) for _ in range(1500 if thorough else 300)]
     for t in triples:
         check(list(t), combine, rng.choice((4, 1000)))
+
+# ---- blocks that combine an inline context with an external source (real CSV files): sizes 0..2 on either side -------------
+import tempfile as _tf, os as _os
+from semantiva.configurations.schema import RunSource
+_dir = _tf.mkdtemp()
+
+
+def _csv(rows):
+    p_ = _os.path.join(_dir, f"src_{rows}.csv")
+    with open(p_, "w") as fh:
+        fh.write("s\n" + "".join(f"{10 * (i + 1)}\n" for i in range(rows)))
+    return p_
+
+
+for bmode in ("by_position", "combinatorial"):
+    for n_ctx in (None, 0, 1, 2):
+        for n_src in (0, 1, 2):
+            evaluations += 1
+            distinct.add(("context+source", bmode, n_ctx, n_src))
+            ctx_vals = None if n_ctx is None else [i + 1 for i in range(n_ctx)]
+            src_vals = [10 * (i + 1) for i in range(n_src)]
+            block = RunBlock(mode=bmode, context=({} if ctx_vals is None else {"c": list(ctx_vals)}),
+                             source=RunSource(format="csv", path=_csv(n_src), select=None, rename={}, mode=bmode))
+            spec = RunSpaceV1Config(combine="combinatorial", max_runs=1000, blocks=[block])
+            # documented: by_position aligns the two sides (equal run counts required, an absent side does not count);
+            # combinatorial takes their product (an absent side is the neutral single empty run)
+            if bmode == "by_position":
+                if ctx_vals is None:
+                    want = ("ok", [{"s": v} for v in src_vals])
+                elif len(ctx_vals) != len(src_vals):
+                    want = ("reject", "config")
+                else:
+                    want = ("ok", [{"c": c, "s": v} for c, v in zip(ctx_vals, src_vals)])
+            else:
+                cs = [{}] if ctx_vals is None else [{"c": c} for c in ctx_vals]
+                want = ("ok", [dict(c, s=v) for c in cs for v in src_vals])
+            try:
+                runs, meta = RS.expand_run_space(spec, cwd=_dir)
+                got = ("ok", [{k: (int(v) if isinstance(v, str) and v.isdigit() else v) for k, v in r.items()} for r in runs])
+            except RunSpaceMaxRunsExceededError:
+                got = ("reject", "max_runs")
+            except PipelineConfigurationError:
+                got = ("reject", "config")
+            except Exception as e:       # noqa
+                got = ("crash", repr(e)[:200])
+            if got != want:
+                failures.append({"class": "context+source-block-differs-from-documented", "mode": bmode, "context_values": ctx_vals, "source_rows": n_src,
+                                 "got": got, "want": want})
 
 # materialisation under an exceeded cap (known finding: the block product is built before the guard)
 counter = {"n": 0}
